@@ -1,6 +1,6 @@
 (* C20 -- parameter cleaning is typed, pure and idempotent. *)
 From Coq Require Import String List Bool ZArith QArith.
-From MP Require Import Base.Sig Model.Params Proofs.ParamsProofs Gen.GenSigs Gen.GenParamFacts.
+From MP Require Import Base.Sig Model.Params Proofs.ParamsProofs Gen.GenSigs Gen.GenParamFacts Model.Effects Proofs.EffectsProofs Gen.GenCleanEffects.
 Import ListNotations.
 Open Scope string_scope.
 
@@ -58,9 +58,39 @@ Example C20_example :
   cleanR E (PPath true) (RInt 5) = CErr (EParameterNotValid "Path").
 Proof. vm_compute. repeat split; reflexivity. Qed.
 
+(* ---------------- purity, from the source ---------------- *)
+Definition cfz_of (flags : list bool) (i : inp) : bool := nth i flags false.
+Definition cbody_ok (b : string * list bool * stmt) : bool :=
+  match check (cfz_of (snd (fst b))) (snd b) [] with Some _ => true | None => false end.
+(* the effect IR of EVERY clean() method of mpilot/params.py (regenerated from the AST of /repo on every run; inputs: the
+   parameter object itself, the raw value, the program) passes the ownership check: nothing a cleaner writes in place can be
+   the parameter object, the value, the program or anything reachable from them *)
+Theorem C20_clean_bodies_pass : forallb cbody_ok clean_bodies = true /\ forallb (fun b => forallb negb (snd (fst b))) clean_bodies = true.
+Proof. vm_compute. split; reflexivity. Qed.
+Lemma nth_all_false l i : forallb negb l = true -> nth i l false = false.
+Proof. revert i. induction l as [|a l IH]; intros i H; [destruct i; reflexivity|]. cbn [forallb] in H. apply andb_true_iff in H as [A B].
+  destruct i; [destruct a; [discriminate | reflexivity] | apply IH; exact B]. Qed.
+(* hence, for any notion of object state: every object that exists when clean() is entered -- the parameter object, the
+   raw value, the program, every command and every finished result -- is in the same state when it returns or raises,
+   for every execution of the body (any branch, any number of iterations, any aliasing the tags allow) *)
+Theorem C20_clean_is_pure : forall (Ob Hd : Type) (inrange : Ob -> Prop) (inloc : inp -> loc -> Prop) b,
+  In b clean_bodies ->
+  forall (s0 s' : store Ob Hd) (e e' : env),
+  exec Ob Hd inrange inloc (snd b) (s0, e) (s', e') ->
+  forall l o0, s0 l = Some o0 -> exists o, s' l = Some o /\ ob _ _ o = ob _ _ o0.
+Proof.
+  intros Ob Hd inrange inloc b Hb s0 s' e e' Hx.
+  destruct C20_clean_bodies_pass as [A F]. rewrite forallb_forall in A, F. specialize (A b Hb). specialize (F b Hb). unfold cbody_ok in A.
+  destruct (check (cfz_of (snd (fst b))) (snd b) []) as [g'|] eqn:E; [|discriminate].
+  eapply body_preserves_observables; eauto.
+  intros i l o Hfz. unfold cfz_of in Hfz. rewrite (nth_all_false _ i F) in Hfz. discriminate.
+Qed.
+
 Print Assumptions C20_source_facts.
 Print Assumptions C20_every_declared_parameter_is_modelled.
 Print Assumptions C20_typed.
 Print Assumptions C20_errors_are_parameter_errors.
 Print Assumptions C20_number_kinds.
 Print Assumptions C20_idempotent.
+Print Assumptions C20_clean_bodies_pass.
+Print Assumptions C20_clean_is_pure.
